@@ -86,7 +86,7 @@ class Ctx:
     def __init__(self, pid, tier, seed, replay=None):
         self.pid, self.tier, self.seed, self.replay = pid, tier, seed, replay
         self.rng = random.Random("%s/%d" % (pid, seed))
-        self.dir = os.path.join(BUILD, pid)
+        self.dir = os.path.join(BUILD, pid if REPO == "/repo" else "%s-%s" % (pid, chash_s(REPO)))
         shutil.rmtree(self.dir, ignore_errors=True)
         os.makedirs(self.dir, exist_ok=True)
         self.t0 = time.time()
@@ -97,6 +97,10 @@ class Ctx:
 
     def sub_rng(self, tag):
         return random.Random("%s/%d/%s" % (self.pid, self.seed, tag))
+
+
+def chash_s(x):
+    return hashlib.sha1(str(x).encode()).hexdigest()[:8]
 
 
 def sh(cmd, timeout, cwd=None, env=None, inp=None):
@@ -474,8 +478,9 @@ class Report:
         ev = dict(property_id=ctx.pid, tier=ctx.tier, seed=ctx.seed, level="proof", coverage=cov,
                   assumptions=meta.get("assumptions", []) + self.assumptions,
                   wall_s=round(time.time() - ctx.t0, 2), violations=violations)
-        os.makedirs(os.path.join(VERIF, "evidence"), exist_ok=True)
-        p = os.path.join(VERIF, "evidence", ctx.pid + ".json")
+        evd = os.environ.get("VERIF_EVIDENCE_DIR") or os.path.join(VERIF, "evidence")  # override: development only
+        os.makedirs(evd, exist_ok=True)
+        p = os.path.join(evd, ctx.pid + ".json")
         json.dump(ev, open(p + ".tmp", "w"), indent=1, default=str)
         os.replace(p + ".tmp", p)
 
